@@ -193,7 +193,7 @@ def run_parity(ctx: Ctx) -> RuleResult:
     ft = repo.func('lark.parsers.lalr_parser_state:ParserState.feed_token')
     body = ' '.join(norm(s) for s in ft.body_nodes() if isinstance(s, ast.Expr))
     from ..exprs import match_cond
-    ok = bool(match_cond(ft.body_nodes(), '$t.type in $cb', '$cb[$t.type]($t)', '$t'))
+    ok = bool(match_cond(ft.body_nodes(), '$t.type in $$cb', '$$cb[$t.type]($t)', '$t'))
     res.ob('%s %s' % (ft.loc(), ft.qual), 'on shift, a terminal callback replaces the token iff one is registered for its type', ok)
     if not ok:
         res.finding(ft, ft.node, 'the LALR driver does not apply the terminal callback exactly for registered token types', construct='embedded:shift')
